@@ -1,12 +1,115 @@
-import FastorModel.Model.QR
+import Mathlib.Data.Matrix.Mul
+import Mathlib.Data.Fintype.BigOperators
+import Mathlib.LinearAlgebra.Matrix.Block
+import FastorModel.Proofs.QRInv
 /-
-  C13 — QR by modified Gram–Schmidt.  (First instalment: the loop calculus; the factorisation theorems follow.)
+  C13 — QR by modified Gram–Schmidt (unary_qr_op.h, unary_piv_op.h).
+
+  Property: for every size and each implemented strategy, Q has orthonormal columns, R is upper triangular with
+  exact zeros below the diagonal, Q*R equals the (pivoted, when requested) input, and the QR-based determinant
+  equals the product of R's diagonal.
+
+  The theorems are about `Model/QR.lean`, a transcription of `qr_mgsr_dispatcher` (outer loop over the columns,
+  steps 1–4 with their loop bounds, the in-place update of the working copy, `R.fill(0)`), of `pivot_inplace`,
+  `apply_pivot`, `reconstruct` and of `determinant<DetCompType::QR>`.  They hold over ANY field `K` and ANY
+  function `sqrt : K → K`, for every `M`, `N`, under the hypothesis `SqrtExact`: each of the `N` values passed to
+  `sqrt` is returned an exact, non-zero root (a hypothesis on a parameter — for ℝ and a full-column-rank input it
+  holds with the real square root; for the rationals it holds on the inputs whose QR factors are rational, which is
+  where the model is tied to the code digit for digit).  The zero pattern of `R` needs no hypothesis at all and no
+  algebraic law (it holds in floating point).  Floating-point error bounds are NOT proved here; they are measured.
 -/
 namespace Fastor.C13
-open Fastor.QR
+open Fastor.QR Finset
 
-/-- a store followed by a read: `X(i,j) = v` changes exactly the element `(i,j)` -/
-theorem set2_get {α : Type} (X : Mat α) (i j : Nat) (v : α) (a b : Nat) :
-    (set2 X i j v) a b = if a = i ∧ b = j then v else X a b := rfl
+variable {K : Type} [Field K]
+
+/-- every argument met by `sqrt` during the factorisation of `A0` gets an exact non-zero root -/
+def SqrtExact (sqrt : K → K) (M N : Nat) (A0 Qin : Mat K) : Prop :=
+  ∀ i, i < N → sqrt (normArg sqrt M N A0 Qin i) * sqrt (normArg sqrt M N A0 Qin i) = normArg sqrt M N A0 Qin i
+    ∧ sqrt (normArg sqrt M N A0 Qin i) ≠ 0
+
+/-- **R is upper triangular with exact zeros below the diagonal** — for every carrier with the five operations
+    (no law is used: floating point included), every `sqrt`, every shape, every input. -/
+theorem qr_R_lower_zero {α : Type} [Zero α] [Add α] [Sub α] [Mul α] [Div α]
+    (sqrt : α → α) (M N : Nat) (A0 Qin : Mat α) (i j : Nat) (h : j < i) :
+    (qrMgsr sqrt M N A0 Qin).R i j = 0 :=
+  rzero_stateAt sqrt M N A0 Qin N i j (Or.inl h)
+
+/-- **Q·R = A**: the factors reproduce the input, element by element -/
+theorem qr_reconstructs (sqrt : K → K) (M N : Nat) (A0 Qin : Mat K) (hs : SqrtExact sqrt M N A0 Qin)
+    (k j : Nat) (hk : k < M) (hj : j < N) :
+    ∑ p ∈ range N, (qrMgsr sqrt M N A0 Qin).Q k p * (qrMgsr sqrt M N A0 Qin).R p j = A0 k j := by
+  have h := (inv_stateAt sqrt M N A0 Qin N (Nat.le_refl N) (fun t ht => hs t ht)).recon k j hk hj
+  rw [if_neg (by omega), add_zero] at h
+  exact h.symm
+
+/-- **QᵀQ = 1**: the columns of `Q` are orthonormal -/
+theorem qr_orthonormal (sqrt : K → K) (M N : Nat) (A0 Qin : Mat K) (hs : SqrtExact sqrt M N A0 Qin)
+    (p q : Nat) (hp : p < N) (hq : q < N) :
+    ∑ k ∈ range M, (qrMgsr sqrt M N A0 Qin).Q k p * (qrMgsr sqrt M N A0 Qin).Q k q = if p = q then 1 else 0 :=
+  (inv_stateAt sqrt M N A0 Qin N (Nat.le_refl N) (fun t ht => hs t ht)).orth p q hp hq
+
+/-- the diagonal of `R` holds the roots: `R(i,i)² ` is the `i`-th argument of `sqrt` -/
+theorem qr_R_diag (sqrt : K → K) (M N : Nat) (A0 Qin : Mat K) (i : Nat) :
+    (stateAt sqrt M N A0 Qin (i + 1)).R i i = sqrt (normArg sqrt M N A0 Qin i) := by
+  rw [stateAt_succ, outerStep_R, if_neg (by omega), set2_get, if_pos ⟨rfl, rfl⟩]; rfl
+
+/-- `product(diag(R))` is the product of the diagonal -/
+theorem diagProd_eq (n : Nat) (R : Mat K) : diagProd n R = ∏ i ∈ range n, R i i := by
+  unfold diagProd
+  refine loop_induction (Nat.zero_le n) _ (1 : K) (fun x acc => acc = ∏ i ∈ range x, R i i) (by simp) ?_
+  intro x t _ _ ih
+  rw [prod_range_succ, ih]
+
+/-- **the QR-based determinant is the product of R's diagonal** -/
+theorem detQR_eq_prod_diag (sqrt : K → K) (n : Nat) (A Qin : Mat K) :
+    detQR sqrt n A Qin = ∏ i ∈ range n, (qr sqrt n A Qin).R i i :=
+  diagProd_eq n _
+
+/-! ### the same statements as matrix identities (square case: the only one the public `qr` compiles for) -/
+
+/-- the `n × n` matrix held by a tensor -/
+def toMatrix (n : Nat) (X : Mat K) : Matrix (Fin n) (Fin n) K := Matrix.of fun i j => X i j
+
+/-- **C13, unpivoted**: `R` upper triangular with exact zeros, `Q * R = A`, `Qᵀ * Q = 1`, `det_qr = ∏ R_ii` -/
+theorem qr_correct (sqrt : K → K) (n : Nat) (A Qin : Mat K) (hs : SqrtExact sqrt n n A Qin) :
+    (∀ i j, j < i → (qr sqrt n A Qin).R i j = 0)
+    ∧ toMatrix n (qr sqrt n A Qin).Q * toMatrix n (qr sqrt n A Qin).R = toMatrix n A
+    ∧ (toMatrix n (qr sqrt n A Qin).Q).transpose * toMatrix n (qr sqrt n A Qin).Q = 1
+    ∧ detQR sqrt n A Qin = ∏ i : Fin n, (qr sqrt n A Qin).R i i := by
+  refine ⟨fun i j h => qr_R_lower_zero sqrt n n A Qin i j h, ?_, ?_, ?_⟩
+  · ext i j
+    rw [Matrix.mul_apply]
+    simp only [toMatrix, Matrix.of_apply]
+    rw [Fin.sum_univ_eq_sum_range (fun p => (qr sqrt n A Qin).Q i p * (qr sqrt n A Qin).R p j) n]
+    exact qr_reconstructs sqrt n n A Qin hs i j i.2 j.2
+  · ext p q
+    rw [Matrix.mul_apply]
+    simp only [toMatrix, Matrix.of_apply, Matrix.transpose_apply, Matrix.one_apply]
+    rw [Fin.sum_univ_eq_sum_range (fun k => (qr sqrt n A Qin).Q k p * (qr sqrt n A Qin).Q k q) n]
+    have h := qr_orthonormal sqrt n n A Qin hs p q p.2 q.2
+    unfold qr
+    rw [h]
+    simp only [Fin.ext_iff]
+  · rw [detQR_eq_prod_diag, ← Fin.prod_univ_eq_prod_range]
+
+/-- **what `determinant<DetCompType::QR>` is, and is not**: its square is the square of the determinant
+    (so it is `|det A|` up to the sign of the roots chosen by `sqrt` — the sign of `det A` is lost). -/
+theorem detQR_sq (sqrt : K → K) (n : Nat) (A Qin : Mat K) (hs : SqrtExact sqrt n n A Qin) :
+    detQR sqrt n A Qin * detQR sqrt n A Qin = (toMatrix n A).det * (toMatrix n A).det := by
+  obtain ⟨hlow, hqr, hqq, hdet⟩ := qr_correct sqrt n A Qin hs
+  have hR : (toMatrix n (qr sqrt n A Qin).R).det = detQR sqrt n A Qin := by
+    rw [hdet, Matrix.det_of_isUpperTriangular]
+    · rfl
+    · intro i j hij
+      exact hlow i j hij
+  have hQ : (toMatrix n (qr sqrt n A Qin).Q).det * (toMatrix n (qr sqrt n A Qin).Q).det = 1 := by
+    have := congrArg Matrix.det hqq
+    rwa [Matrix.det_mul, Matrix.det_transpose, Matrix.det_one] at this
+  rw [← hqr, Matrix.det_mul, hR]
+  calc detQR sqrt n A Qin * detQR sqrt n A Qin
+      = ((toMatrix n (qr sqrt n A Qin).Q).det * (toMatrix n (qr sqrt n A Qin).Q).det)
+          * (detQR sqrt n A Qin * detQR sqrt n A Qin) := by rw [hQ, one_mul]
+    _ = _ := by ring
 
 end Fastor.C13
